@@ -88,7 +88,8 @@ def _snap_features(rng, n, f0, flen, tag, count, refs=0, origin=0):
             parts = gen.rotate_parts(parts, 0, n)
         q = {"uid": ["%s.%d" % (tag, j)], "note": ["kind %s" % kind]}
         if refs and rng.random() < 0.7:
-            q["citation"] = ["[%d]" % rng.randint(1, refs) for _ in range(rng.randint(1, min(3, refs)))]
+            q["citation"] = ["[%d]" % (rng.randint(10, refs) if refs >= 10 and rng.random() < 0.6 else rng.randint(1, refs))
+                             for _ in range(rng.randint(1, min(3, refs)))]
             if rng.random() < 0.5:  # distinct citations only
                 q["citation"] = sorted(set(q["citation"]))
         feats.append({"type": rng.choice(["CDS", "misc_feature", "promoter", "terminator", "source"]), "parts": parts, "quals": q})
@@ -127,7 +128,7 @@ def _rotate_spec(rng, spec, r):
     return out
 
 
-REF_POOL = 9
+REF_POOL = 18
 
 
 def _ref(i):
@@ -168,7 +169,7 @@ def materialise_assembly(case):
         n = len(b["seq"])
         nrefs = 0
         if opts["refs"]:
-            nrefs = rng.randint(0, 5)
+            nrefs = rng.randint(0, 5) if rng.random() < 0.8 else rng.randint(10, 14)   # two-digit citation indices now and then
             if nrefs or rng.random() < 0.5:
                 # pairwise distinct within a record; shared between records through the common pool
                 spec["refs"] = [_ref(j) for j in rng.sample(range(REF_POOL), nrefs)]
@@ -221,8 +222,11 @@ def expected_product(mat):
     return "".join(text), frags, order
 
 
-def run_assembly(mat, ctx=None, classes=None, records=None, kwargs=True):
-    """call the real assemble(); returns dict(outcome='product'|'error', product, error, warnings, inputs, entities)"""
+def run_assembly(mat, ctx=None, classes=None, records=None, kwargs=True, inspect_first=None):
+    """call the real assemble(); returns dict(outcome='product'|'error', product, error, warnings, inputs, entities).
+    inspect_first: the entities are first asked for validity, overhangs, target (and placeholder) - what a user
+    looking at the parts before assembling them does - and then the *same entity objects* are assembled
+    (default: every third case, decided by the case id)."""
     V, M = classes or gen.generic_classes(mat["enzyme"])
     if records is None:
         vrec = gen.make_record(mat["vector"])
@@ -231,6 +235,21 @@ def run_assembly(mat, ctx=None, classes=None, records=None, kwargs=True):
         vrec, mrecs = records
     vec = V(vrec)
     mods = [M(r) for r in mrecs]
+    if inspect_first is None:
+        inspect_first = sum(map(ord, str(mat.get("id", "")))) % 3 == 0
+    if inspect_first:
+        for e in [vec] + mods:
+            try:
+                if e.is_valid():
+                    e.overhang_start()
+                    e.overhang_end()
+                    e.target_sequence()
+                    if hasattr(e, "placeholder_sequence"):
+                        e.placeholder_sequence()
+            except Exception:
+                pass
+        if ctx is not None:
+            ctx.count("assemblies_with_entities_inspected_first")
     kw = {"id": mat.get("id", "assembly"), "name": mat.get("name", "assembly")} if kwargs else {}
     res = {"vector": vec, "modules": mods, "vrec": vrec, "mrecs": mrecs}
     with warnings.catch_warnings(record=True) as w:
